@@ -321,6 +321,16 @@ ALGEBRA_PROBES = [
 ]
 
 
+ALGEBRA_DETECT_PROBES = [
+    ("uint8 values", _pd.Series([1, 2, 3], dtype="uint8")),
+    ("plain strings", _pd.Series(["a", "b"], dtype=object)),
+    ("ordered categorical", _pd.Series(_pd.Categorical(["a", "b"], ordered=True))),
+    ("dates", _pd.Series([__import__("datetime").date(2020, 1, 1)], dtype=object)),
+    ("bools", _pd.Series([True, False])),
+    ("floats", _pd.Series([1.5, 2.5])),
+]
+
+
 def run_algebra(tier, seed):
     rng = rng_for(seed, "algebra")
     fails, disagreements = [], []
@@ -378,8 +388,12 @@ def run_algebra(tier, seed):
                 res, err = None, type(e).__name__
         evals += 1
         # operands untouched
-        if snapshot(ts) != before or (argsnap is not None and snapshot(arg) != argsnap):
+        if op in ("add", "sub", "replace") and (snapshot(ts) != before or (argsnap is not None and snapshot(arg) != argsnap)):
             fails.append({"property": "C13", "signature": "operand-modified", "what": "an operand changed", "op": label})
+            # ... which also makes later answers of that typeset depend on this earlier call (C10)
+            fails.append({"property": "C10", "signature": "typeset-changed-by-algebra",
+                          "what": "`%s` changed its operand (types / graph before and after differ), so later results of that typeset "
+                                  "depend on this call" % label, "op": label})
         if class_changed(cls_before, class_snapshot()):
             fails.append({"property": "C13", "signature": "type-class-modified", "what": "a type class changed", "op": label})
         if want == "KeyError":
@@ -414,6 +428,27 @@ def run_algebra(tier, seed):
             decl = sorted((str(r.related_type), str(t), bool(r.inferential)) for t in want for r in t.get_relations() if r.related_type in want)
             if ed != decl and eg == ed:
                 ed = decl
+            # the identity graph used by detect: exactly the declared identity relations among the types
+            bg = sorted((str(a), str(b)) for a, b in res.base_graph.edges)
+            bd = sorted((a, b) for a, b, inf in decl if not inf)
+            if bg != bd or sorted(str(n) for n in res.base_graph.nodes) != sorted(str(t) for t in want):
+                fails.append({"property": "C14", "signature": "algebra-base-graph-not-declared-identity-relations",
+                              "what": "result of `%s`: identity graph has edges %s, the declared identity relations among its types are %s"
+                                      % (label, [e for e in bg if e not in bd][:3] or "(missing) " + str([e for e in bd if e not in bg][:3]), len(bd)),
+                              "op": label})
+                for nm_, probe in ALGEBRA_PROBES + ALGEBRA_DETECT_PROBES:
+                    try:
+                        with warnings.catch_warnings():
+                            warnings.simplefilter("ignore")
+                            ra, rb = str(direct.detect_type(probe)), str(res.detect_type(probe))
+                    except Exception as e:  # noqa
+                        continue
+                    if ra != rb:
+                        fails.append({"property": "C01", "signature": "algebra-built-typeset-detects-differently",
+                                      "what": "`%s` detects %s for %s although its identity child %s is in the typeset and contains the data "
+                                              "(the directly constructed typeset of the same types detects %s)" % (label, rb, nm_, ra, ra),
+                                      "op": label, "probe": nm_})
+                        break
             if eg != ed:
                 missing = [e for e in ed if e not in eg]
                 extra = [e for e in eg if e not in ed]
@@ -465,6 +500,21 @@ def run_algebra(tier, seed):
             absent = [t for t in types_all if t not in ts0.types and t is not new]
             if absent:
                 one_step(mk(nm), "replace", (absent[0], new), "%s replace-absent %s->%s" % (nm, absent[0], new))
+    # grow small typesets in place: every added type must be reachable by detect afterwards
+    for seq in (["Object", "Categorical", "String", "Ordinal"], ["Integer", "Count"], ["Object", "Date", "Time"],
+                ["Integer", "Float", "Complex", "Count"], ["Object", "String", "Path", "File", "Image"]):
+        with warnings.catch_warnings():
+            warnings.simplefilter("ignore")
+            cur = VisionsTypeset({Generic})
+        for nm_ in seq:
+            nxt = one_step(cur, "iadd", BYNAME[nm_], "{Generic} iadd ... %s" % nm_)
+            if nxt is None:
+                break
+            cur = nxt
+    for nm in base_ts:
+        for t in types_all:
+            if t not in mk(nm).types and is_parent_closed(set(mk(nm).types) | {t}):
+                one_step(mk(nm), "iadd", t, "%s iadd %s (new type)" % (nm, t))
     # remove a type, then add it back (the source of a relation arrives after its target)
     for nm in base_ts:
         for t in sorted(mk(nm).types, key=str):
